@@ -3,7 +3,7 @@
 From Coq Require Extraction.
 From Coq Require Import ExtrOcamlBasic.
 From Spg.Base Require Import Prelude Utf8 Bytes.
-From Spg.Model Require Import Tables Rand GenM CharSets CharGen Token WordList WordGen Api Diag.
+From Spg.Model Require Import Tables Rand GenM CharSets CharGen Token WordList WordGen Api Diag Cli.
 
 Definition run_draw (n : N) (src : source) : outcome N * N :=
   run_src (Pick n (fun i => Ret (Done i))) src.
@@ -41,6 +41,12 @@ Definition run_wlgen (tbl : list (bytes * bytes)) (b : budget) (r : wl_recipe) (
 Definition run_sep (b : budget) (s : sep_fun) (src : source) : outcome (bytes * option entropy) * N :=
   run_src (fmap Done (sep_call b s)) src.
 
+(** the command line: plan, then the library model on the planned recipe *)
+Definition run_cli (title : bytes -> bytes) (aw asyl : outcome (option word_list)) (a : action) (src : source) : outcome cli_out * N :=
+  run_src (fmap Done (cli_exec title aw asyl a)) src.
+(** NewWordList under the model's ASCII title-casing (exact for ASCII words; the shipped lists are a-z) *)
+Definition run_new_word_list_ascii (l : list bytes) := new_word_list title_ascii None l.
+
 Definition run_new_word_list (tbl : list (bytes * bytes)) (emit : option (list bytes)) (l : list bytes) :=
   new_word_list (title_of tbl) emit l.
 
@@ -51,7 +57,7 @@ Extraction "model.ml"
   run_draw run_src explode
   run_chargen recipe_report char_entropy alphabet_string recipe_count sp_num sp_den char_generate_diag char_entropy_diag
   mkCR mkBudget Z.of_N roundtrip_report tokenize Tok
-  run_wlgen run_sep sep_diag run_new_word_list wl_generate_diag cap_of_string mkWLR mkWL
+  run_wlgen run_sep sep_diag run_cli cli_plan cli_diag title_of title_ascii run_new_word_list_ascii run_new_word_list wl_generate_diag cap_of_string mkWLR mkWL
   run_history mkCO OChar OWL SetChar SetWL Generate Entropy Alphabet SuccessProb
   render_stream Stdout Log
   SFNone SFDigits1 SFDigits2 SFDigitsNoAmbiguous1 SFDigitsNoAmbiguous2 SFSymbols SFDigitsSymbols.
